@@ -165,7 +165,7 @@ pub fn run_case(p: &Profile, case: &CaseA, case_seed: u64, nthreads: usize) -> E
         w.threaded = Some(sh.clone());
         w.midfire_pct = 0;
     });
-    let mut b = Builder { scripts: VecDeque::from(case.leaves.clone()) };
+    let mut b = Builder { scripts: VecDeque::from(case.leaves.clone()), plain: case.plain };
     let built = std::panic::catch_unwind(std::panic::AssertUnwindSafe(|| if case.shape.fam.is_stream() { Root::S(b.build_str(&case.shape, None)) } else { Root::F(b.build_fut(&case.shape, None)) }));
     w(|w| w.phase = Phase::Idle);
     let root_prop = case.shape.fam.prop();
